@@ -353,7 +353,9 @@ func (c *Collector) cleanup(now int64) {
 
 	c.endpoints.Range(func(url string, data *endpointData) bool {
 		count++
-		if atomic.LoadInt64(&data.lastUsed) < cutoff {
+		// an endpoint with connections in flight is in use whatever its timestamp says
+		// (RecordConnection does not refresh lastUsed): dropping it would zero its gauge
+		if atomic.LoadInt64(&data.lastUsed) < cutoff && atomic.LoadInt64(&data.activeConnections) == 0 {
 			toRemove = append(toRemove, url)
 		}
 		return true
@@ -370,7 +372,9 @@ func (c *Collector) cleanup(now int64) {
 		}
 		var ages []endpointAge
 		c.endpoints.Range(func(url string, data *endpointData) bool {
-			ages = append(ages, endpointAge{url, atomic.LoadInt64(&data.lastUsed)})
+			if atomic.LoadInt64(&data.activeConnections) == 0 {
+				ages = append(ages, endpointAge{url, atomic.LoadInt64(&data.lastUsed)})
+			}
 			return true
 		})
 		sort.Slice(ages, func(i, j int) bool {
